@@ -31,7 +31,7 @@ const NVAL: usize = 128;
 const SHRINK_PER_CLASS: usize = 24;
 
 pub fn meta(rep: &mut Report) {
-    rep.rule = "Part A (histories): `new` summaries a b c (Bool symbols), x==y, x>y (atoms over 2-bit x y), x, y, x+y (2-bit); operations apply_bin_op(and|or on Boolean, add|sel on 2-bit [sel(p,q)=ite(p[0],p,q)], ugt 2-bit->Boolean), apply_ite(cond,tru,fals), coalesce, import_into_guard (Boolean only). Arguments of a step: the two most recent results or a `new` summary; a result may not leave that window unused; the last step must use every unused result; the interchangeable values {a,b,c}, {x==y,x>y}, {x,y,x+y} are used in first-use order (the subject treats values as opaque, so renamings have identical runs). Quick: every history of <= 3 operations plus every 4th operation that is coalesce/import_into_guard; thorough: <= 4 operations plus unary 5th, then full 5 under the budget; each also from a non-initial GuardCtx (terminals c,b,a already registered in reverse order) [quick: up to 2 operations]. A state = a history, rebuilt by replay in a fresh GuardCtx; a failing state is reported and not extended. In every state, for every valuation of a,b,c,x,y (2^7): exactly one entry guard is true (verif_eval), the selected value (eval_ref) equals the reference denotation, coalesce leaves no two entries with equal values. Part B (expr_to_guard): every Boolean term with <= 2 operators over {a,b,c,x==y,x>y,true,false} with not/and/or/xor/implies (decomposed) and eq/add/ite on Booleans (must become terminals), in a fresh and in a pre-populated GuardCtx: the guard evaluates as the term. states = distinct histories checked; transitions = operations applied to reach them (one per non-initial state); traces_validated_against_impl = histories replayed on the real object whose final state was compared with the reference (every prefix is a state of its own); distinct_nontrivial = distinct (guard truth table, value denotation) entry lists with >= 2 entries + distinct guard terms converted".into();
+    rep.rule = "Part A (histories): `new` summaries a b c (Bool symbols), x==y, x>y (atoms over 2-bit x y), x, y, x+y (2-bit); operations apply_bin_op(and|or on Boolean, add|sel on 2-bit [sel(p,q)=ite(p[0],p,q)], ugt 2-bit->Boolean), apply_ite(cond,tru,fals), coalesce, import_into_guard (Boolean only). Arguments of a step: the two most recent results or a `new` summary; a result may not leave that window unused; the last step must use every unused result; the interchangeable values {a,b,c}, {x==y,x>y}, {x,y,x+y} are used in first-use order (the subject treats values as opaque, so renamings have identical runs). Quick: every history of <= 3 operations plus every 4th operation that is coalesce/import_into_guard from a fresh GuardCtx, and every history of <= 3 operations from a non-initial GuardCtx (terminals c,b,a already registered in reverse order by expr_to_guard(xor(c, implies(b,a)))); thorough: the 3+unary space from both GuardCtx states, then every history of <= 4 operations plus every unary 5th from the fresh GuardCtx, sub-tree by sub-tree of the first operation under the budget (coverage.passes lists the completed sub-trees). A state = a history, rebuilt by replay in a fresh GuardCtx; a failing state is reported and not extended. In every state, for every valuation of a,b,c,x,y (2^7): exactly one entry guard is true (verif_eval), the selected value (eval_ref) equals the reference denotation, coalesce leaves no two entries with equal values. Part B (expr_to_guard): every Boolean term with <= 2 operators over {a,b,c,x==y,x>y,true,false} with not/and/or/xor/implies (decomposed) and eq/add/ite on Booleans (must become terminals), in a fresh and in a pre-populated GuardCtx: the guard evaluates as the term. states = distinct histories checked; transitions = operations applied to reach them (one per non-initial state); traces_validated_against_impl = histories replayed on the real object whose final state was compared with the reference (every prefix is a state of its own); distinct_nontrivial = distinct (guard truth table, value denotation) entry lists with >= 2 entries + distinct guard terms converted".into();
     rep.assumptions = vec![
         "guards are observed only through GuardCtx::verif_eval; it depends on the valuation only through the registered terminals, so it is called once per distinct terminal valuation induced by the 128 concrete valuations".into(),
         "the reference denotation is plain integer arithmetic on the 128 valuations; leaf denotations are cross-checked against eval_ref at start".into(),
